@@ -6,6 +6,7 @@ package main
 import (
 	"fmt"
 	"sort"
+	"strconv"
 	"strings"
 
 	"github.com/zclconf/go-cty/cty"
@@ -260,7 +261,69 @@ func checkPublic(v cty.Value, depth int) (msg string) {
 }
 
 // fp is the internal structural fingerprint (hook).
-func fp(v cty.Value) string { return cty.VerifFingerprint(v) }
+func fp(v cty.Value) string { return cty.VerifFingerprint(v) + capsIdent(v.Type()) }
+
+// fpType is the fingerprint of a type, with the identity of the capsule types in it.
+func fpType(ty cty.Type) string { return cty.VerifFingerprintType(ty) + capsIdent(ty) }
+
+// capsIdent names the capsule types inside ty by their identity (their index among the harness's capsule types):
+// two capsule types of one name and one Go type print alike and are different types all the same.
+func capsIdent(ty cty.Type) string {
+	if ty == cty.NilType || ty.IsPrimitiveType() || ty == cty.DynamicPseudoType {
+		return ""
+	}
+	var has func(t cty.Type) bool
+	has = func(t cty.Type) bool {
+		switch {
+		case t.IsCapsuleType():
+			return true
+		case t.IsCollectionType():
+			return has(t.ElementType())
+		case t.IsTupleType():
+			for _, et := range t.TupleElementTypes() {
+				if has(et) {
+					return true
+				}
+			}
+		case t.IsObjectType():
+			for _, at := range t.AttributeTypes() { // (an order-independent question)
+				if has(at) {
+					return true
+				}
+			}
+		}
+		return false
+	}
+	if !has(ty) {
+		return ""
+	}
+	var out string
+	var walk func(t cty.Type)
+	walk = func(t cty.Type) {
+		switch {
+		case t.IsCapsuleType():
+			id := "?"
+			for i, ct := range capTypes {
+				if ct.Equals(t) {
+					id = strconv.Itoa(i)
+				}
+			}
+			out += "#cap" + id
+		case t.IsCollectionType():
+			walk(t.ElementType())
+		case t.IsTupleType():
+			for _, et := range t.TupleElementTypes() {
+				walk(et)
+			}
+		case t.IsObjectType():
+			for _, n := range sortedAttrNames(t) {
+				walk(t.AttributeType(n))
+			}
+		}
+	}
+	walk(ty)
+	return out
+}
 
 // errClass compares errors by class, not text.
 func errClass(err error) string {
